@@ -84,7 +84,14 @@ func (sdb *PreparedStmtDB) Reset() {
 			}
 		}(stmt)
 	}
-	sdb.Stmts = make(map[string]*Stmt)
+	// clear the map in place: handles created by Session{PrepareStmt: true} share
+	// it, and would otherwise keep serving the statements closed above
+	for query := range sdb.Stmts {
+		delete(sdb.Stmts, query)
+	}
+	if sdb.Stmts == nil {
+		sdb.Stmts = make(map[string]*Stmt)
+	}
 }
 
 func (db *PreparedStmtDB) prepare(ctx context.Context, conn ConnPool, isTransaction bool, query string) (Stmt, error) {
